@@ -518,3 +518,17 @@ pub fn c17_de_ignored_any() {
     let r = (&mut d).deserialize_ignored_any(ShapeV);
     assert!(matches!(r, Ok(Shape::Unit)) && d.decoder().position() == 5);
 }
+
+/// Serializer and Deserializer agree on `is_human_readable()` (types such as the std::net
+/// addresses choose their representation by it: a mismatch breaks their round trip), and the
+/// bridge, a binary format, reports `false`.
+#[kani::proof]
+pub fn c17_human_readable_consistent() {
+    let mut s = Serializer::new(Cursor::new([0u8; 4]));
+    let buf = [0u8; 1];
+    let mut d = Deserializer::new(&buf[..]);
+    let a = serde::Serializer::is_human_readable(&&mut s);
+    let b = serde::Deserializer::is_human_readable(&&mut d);
+    assert!(a == b, "Serializer and Deserializer disagree on is_human_readable()");
+    assert!(!a, "a binary format must not claim to be human readable");
+}
